@@ -308,6 +308,7 @@ def step (w : World) (ws : List String) : World × List String :=
     (setCtx (setCtx w c.toNat! (some { cfg := cfg })) c2.toNat! (some { cfg := cfg }), ["R 0"])
   | ["SP", c, d] => withCtx c fun ci x =>
       (setCtx w ci (some { x with dirs := tildeExpand (mkPEnv w []) (bytesOfHex d) :: x.dirs }), ["R 0"])
+  | ["STACK", _] => (w, [])       -- a resource limit of the harness' process: nothing the model knows of
   | ["EF", c, k] => withCtx c fun ci x => (setCtx w ci (some { x with errfn := k.toNat! }), ["R 0"])
   | ["PB", c, t] => withCtx c fun ci x => emitParse w ci x (parseBuf orc (mkPEnv w x.dirs) x.cfg (bytesOfHex t) w.k)
   -- model-only parse: what a parse the harness' own callback starts (nested in a running parse, which the model
